@@ -189,3 +189,34 @@ func (s *Staking) Jail(ctx context.Context, consAddr sdk.ConsAddress) error {
 	}
 	return nil
 }
+
+// Slashing is a fake x/slashing keeper recording jail requests and applying
+// them to the staking fake (Jail sets the jailed flag, as the real module does
+// through the staking keeper).
+type Slashing struct {
+	Staking    *Staking
+	Faults     bool
+	JailCalls  []string
+	UntilCalls []time.Time
+}
+
+func (s *Slashing) Jail(ctx context.Context, cons sdk.ConsAddress) error {
+	if s.Faults && sym.Fault("slashing.Jail") {
+		return ErrInjected
+	}
+	s.JailCalls = append(s.JailCalls, string(cons))
+	for _, v := range s.Staking.Vals {
+		if v.ConsAddr().Equals(cons) {
+			v.Jailed = true
+		}
+	}
+	return nil
+}
+
+func (s *Slashing) JailUntil(ctx context.Context, cons sdk.ConsAddress, t time.Time) error {
+	if s.Faults && sym.Fault("slashing.JailUntil") {
+		return ErrInjected
+	}
+	s.UntilCalls = append(s.UntilCalls, t)
+	return nil
+}
